@@ -154,7 +154,11 @@ func vC05(nActs int, acts []int, ways int) {
 		case actRegister:
 			a.send(&wamp.Register{Request: 12, Procedure: "a.proc"})
 		case actCallPending:
-			a.send(&wamp.Call{Request: 13, Procedure: "b.proc", Options: wamp.Dict{"receive_progress": true, "timeout": int64(60000)}})
+			copts := wamp.Dict{"receive_progress": true}
+			if vBool("pending-call-has-router-timeout") {
+				copts["timeout"] = int64(60000)
+			}
+			a.send(&wamp.Call{Request: 13, Procedure: "b.proc", Options: copts})
 			inv, n := vFindMsg[*wamp.Invocation](b.drain())
 			vAssert("b-got-invocation", n == 1)
 			invAtB = inv
@@ -164,7 +168,11 @@ func vC05(nActs int, acts []int, ways int) {
 				did[actRegister] = true
 				a.drain()
 			}
-			b.send(&wamp.Call{Request: 14, Procedure: "a.proc", Options: wamp.Dict{"timeout": int64(60000)}})
+			sopts := wamp.Dict{}
+			if vBool("served-call-has-router-timeout") {
+				sopts["timeout"] = int64(60000)
+			}
+			b.send(&wamp.Call{Request: 14, Procedure: "a.proc", Options: sopts})
 		case actRefusedCall:
 			a.send(&wamp.Call{Request: 15, Procedure: "b.proc", Options: wamp.Dict{"disclose_me": true}})
 		case actRefusedCall2:
@@ -262,6 +270,8 @@ func vC05(nActs int, acts []int, ways int) {
 		a.send(&wamp.Welcome{ID: 1, Details: wamp.Dict{}}) // protocol violation
 	case 4: // everybody but the caller is killed through the meta API
 		b.send(&wamp.Call{Request: 20, Procedure: wamp.MetaProcSessionKillAll})
+	case 5: // killed with the reason an operator would give before maintenance
+		b.send(&wamp.Call{Request: 20, Procedure: wamp.MetaProcSessionKill, Arguments: wamp.List{a.id}, ArgumentsKw: wamp.Dict{"reason": string(wamp.CloseSystemShutdown), "message": "maintenance"}})
 	}
 	if !aborted {
 		a.drain()
@@ -314,6 +324,6 @@ func vC05(nActs int, acts []int, ways int) {
 
 var vC05Acts = []int{actSubscribe, actRegister, actCallPending, actServePending, actRefusedCall, actRefusedCall2, actTestament, actUnregisterWhileServing, actSubscribeUnsubscribe, actSubscribeHistory, actRefusedUnregister, actTestamentAck}
 
-func Harness_C05_Leave_1() { vC05(1, vC05Acts, 5) }
-func Harness_C05_Leave_2() { vC05(2, vC05Acts, 5) }
-func Harness_C05_Leave_3() { vC05(3, vC05Acts, 5) }
+func Harness_C05_Leave_1() { vC05(1, vC05Acts, 6) }
+func Harness_C05_Leave_2() { vC05(2, vC05Acts, 6) }
+func Harness_C05_Leave_3() { vC05(3, vC05Acts, 6) }
